@@ -6,6 +6,7 @@
 #define V_STUB_CHACHA20 1
 #define V_STUB_HCHACHA20 1
 #define V_STUB_POLY1305 1
+#define V_POLY_STREAM 1
 #define V_STUB_RANDOMBYTES 1
 #include "transcript.h"
 #ifndef VNATIVE
@@ -20,7 +21,7 @@ void explicit_bzero(void *s, size_t n) { memset(s, 0, n); }   /* assumed libc co
 typedef crypto_secretstream_xchacha20poly1305_state ss_state;
 
 struct vin_t {
-    unsigned long long mlen, adlen, inlen; size_t gk; int lenp_null, tagp_null; unsigned char mold, tag;
+    unsigned long long mlen, adlen, inlen, gm; size_t gk; int lenp_null, tagp_null; unsigned char mold, tag;
     unsigned char k[32], nonce[12], pad[8];                /* the state before the call */
     unsigned char ks0[64], xb[64], xb2[64], mac[16], stored_mac[16], in0, hk[32], header[24], key[32];
 };
@@ -54,7 +55,7 @@ static void setup_(ss_state *st)
     for (i = 0; i < 8; i++) st->_pad[i] = vin.pad[i];
     st0_ = *st;
     v_ks0 = vin.ks0; v_tag = vin.mac; v_subkey = vin.hk; v_xbs[0] = vin.xb; v_xbs[1] = vin.xb2; v_short_xor_count = 0;
-    v_nlog = 0; v_log_overflow = 0; v_misuse_expected = 0;
+    v_nlog = 0; v_log_overflow = 0; v_misuse_expected = 0; v_mac_g = vin.gm;
     v_ref_key = vin.k; v_ref_na = vin.nonce;
 }
 
@@ -97,32 +98,57 @@ static void prep_refs_(unsigned char tagbyte_in, unsigned char block0_after)
     v_ref_blks[1] = blk_rekey_; v_ref_blk_lens[1] = 40;
 }
 
-/* the chunk layout common to push and pull: events 0..10; returns index of the next event */
-static unsigned chunk_transcript_(const unsigned char *ad, unsigned long long adlen, const unsigned char *c, unsigned long long mlen)
+/* Events are looked up by kind (and block counter), not by position, and the MAC input is checked as ONE byte stream
+ * (total length and the byte at an arbitrary ghost offset): the checks do not depend on how the code chunks its Poly1305
+ * updates or orders independent calls.  Orderings that matter follow from values: the one-time key equals keystream
+ * block 0; the MACed tag block equals the encrypted block; on push the MACed ciphertext byte equals the final output. */
+static unsigned count_(int op) { unsigned i, n = 0; for (i = 0; i < V_LOG_MAX; i++) if (i < v_nlog && v_log[i].op == op) n++; return n; }
+static unsigned first_(int op) { unsigned i, r = 0; int f = 0; for (i = 0; i < V_LOG_MAX; i++) if (!f && i < v_nlog && v_log[i].op == op) { r = i; f = 1; } return r; }
+static unsigned count_xor_(unsigned long long ic) { unsigned i, n = 0; for (i = 0; i < V_LOG_MAX; i++) if (i < v_nlog && v_log[i].op == V_OP_XOR && v_log[i].ic == ic) n++; return n; }
+static unsigned first_xor_(unsigned long long ic) { unsigned i, r = 0; int f = 0; for (i = 0; i < V_LOG_MAX; i++) if (!f && i < v_nlog && v_log[i].op == V_OP_XOR && v_log[i].ic == ic) { r = i; f = 1; } return r; }
+static unsigned long long off_blk_(unsigned long long adlen) { return adlen + ((16 - (adlen & 15)) & 15); }
+static unsigned long long mac_total_(unsigned long long mlen, unsigned long long adlen) { return off_blk_(adlen) + 64 + mlen + ((0x10 - 64 + mlen) & 0xf) + 16; }
+static int in_c_(unsigned long long mlen, unsigned long long adlen) { return vin.gm >= off_blk_(adlen) + 64 && vin.gm - off_blk_(adlen) - 64 < mlen; }
+static unsigned char mac_expected_(unsigned long long g, unsigned char cbyte, unsigned long long mlen, const unsigned char *ad, unsigned long long adlen)
 {
-    unsigned i = 0;
-    VASSERT("Poly1305 key block = keystream block 0 under (state nonce, state key)", V_EV(i).op == V_OP_STREAM && V_EV(i).cipher == V_C_CHACHA20_IETF && V_EV(i).len == 64 && (V_EV(i).flags & V_F_N_A) && (V_EV(i).flags & V_F_K_USER));
-    const void *blk = V_EV(i).out; i++;
-    VASSERT("one-time key = first 32 bytes of it", V_EV(i).op == V_OP_POLY_INIT && V_EV(i).kptr == blk && (V_EV(i).flags & V_F_K_KS0));
-    const void *ps = V_EV(i).st; i++;
-    VASSERT("MAC: ad", V_EV(i).op == V_OP_POLY_UPDATE && V_EV(i).st == ps && V_EV(i).in == ad && V_EV(i).len == adlen); i++;
-    VASSERT("MAC: zero padding of ad to 16", V_EV(i).op == V_OP_POLY_UPDATE && V_EV(i).st == ps && V_EV(i).len == ((16 - (adlen & 15)) & 15) && (V_EV(i).flags & V_F_D_ZERO)); i++;
-    VASSERT("tag block = (tag || 0^63) XOR keystream block 1", V_EV(i).op == V_OP_XOR && V_EV(i).cipher == V_C_CHACHA20_IETF && V_EV(i).len == 64 && V_EV(i).ic == 1 && V_EV(i).out == V_EV(i).in &&
-            (V_EV(i).flags & V_F_N_A) && (V_EV(i).flags & V_F_K_USER) && (V_EV(i).flags & V_F_BLKREF)); i++;
-    VASSERT("MAC: the 64-byte encrypted tag block", V_EV(i).op == V_OP_POLY_UPDATE && V_EV(i).st == ps && V_EV(i).len == 64 && (V_EV(i).flags & V_F_D_REF64)); i++;
-    VASSERT("MAC: ciphertext", V_EV(i).op == V_OP_POLY_UPDATE && V_EV(i).st == ps && V_EV(i).in == c && V_EV(i).len == mlen); i++;
-    VASSERT("MAC: zero padding of length (16 - 64 + mlen) & 15 (the documented, interoperable quirk)", V_EV(i).op == V_OP_POLY_UPDATE && V_EV(i).st == ps && V_EV(i).len == ((0x10 - 64 + mlen) & 0xf) && (V_EV(i).flags & V_F_D_ZERO)); i++;
-    VASSERT("MAC: le64(adlen)", V_EV(i).op == V_OP_POLY_UPDATE && V_EV(i).st == ps && V_EV(i).len == 8 && V_EV(i).d64 == adlen); i++;
-    VASSERT("MAC: le64(64 + mlen)", V_EV(i).op == V_OP_POLY_UPDATE && V_EV(i).st == ps && V_EV(i).len == 8 && V_EV(i).d64 == 64 + mlen); i++;
-    VASSERT("authenticator = Poly1305 final", V_EV(i).op == V_OP_POLY_FINAL && V_EV(i).st == ps);
-    return i;
+    unsigned long long ob = off_blk_(adlen), ol = ob + 64 + mlen + ((0x10 - 64 + mlen) & 0xf);
+    if (g < adlen) return ad[g];
+    if (g < ob) return 0;
+    if (g < ob + 64) return macblk_[g - ob];
+    if (g < ob + 64 + mlen) return cbyte;
+    if (g < ol) return 0;
+    if (g < ol + 8) return (unsigned char) (adlen >> (8 * (g - ol)));
+    return (unsigned char) ((64 + mlen) >> (8 * (g - ol - 8)));
 }
-static unsigned rekey_event_(unsigned i)
+/* the part of a chunk common to push and pull; returns the output pointer of the Poly1305 final */
+static const void *chunk_transcript_(const unsigned char *ad, unsigned long long adlen, unsigned char cbyte, unsigned long long mlen)
 {
-    VASSERT("rekey: (k || inonce) XOR ChaCha20-IETF keystream under the incremented nonce and the old key, 40 bytes in place",
-            V_EV(i).op == V_OP_XOR && V_EV(i).cipher == V_C_CHACHA20_IETF && V_EV(i).len == 40 && V_EV(i).ic == 0 && V_EV(i).out == V_EV(i).in &&
-            (V_EV(i).flags & V_F_N_B) && (V_EV(i).flags & V_F_K_USER) && (V_EV(i).flags & V_F_BLKREF));
-    return i + 1;
+    unsigned i = first_(V_OP_STREAM);
+    VASSERT("Poly1305 key block = keystream block 0 under (state nonce, state key)", count_(V_OP_STREAM) == 1 && V_EV(i).op == V_OP_STREAM && V_EV(i).cipher == V_C_CHACHA20_IETF && V_EV(i).len == 64 && (V_EV(i).flags & V_F_N_A) && (V_EV(i).flags & V_F_K_USER));
+    i = first_(V_OP_POLY_INIT);
+    VASSERT("one-time key = first 32 bytes of it; one MAC computation", count_(V_OP_POLY_INIT) == 1 && V_EV(i).op == V_OP_POLY_INIT && (V_EV(i).flags & V_F_K_KS0));
+    const void *ps = V_EV(i).st;
+    i = first_xor_(1);
+    VASSERT("tag block = (tag || 0^63) XOR keystream block 1", count_xor_(1) == 1 && V_EV(i).op == V_OP_XOR && V_EV(i).cipher == V_C_CHACHA20_IETF && V_EV(i).len == 64 && V_EV(i).ic == 1 && V_EV(i).out == V_EV(i).in &&
+            (V_EV(i).flags & V_F_N_A) && (V_EV(i).flags & V_F_K_USER) && (V_EV(i).flags & V_F_BLKREF));
+    VASSERT("all MAC input goes into that one Poly1305 state", !v_mac_bad_st);
+    VASSERT("MAC input length = |ad| + pad16 + 64 + |c| + ((16 - 64 + mlen) & 15) + 8 + 8 (the documented, interoperable padding quirk)", v_mac_total == mac_total_(mlen, adlen));
+    VASSERT("MAC input = ad || 0-pad || encrypted tag block || ciphertext || 0-pad || le64(adlen) || le64(64 + mlen), byte for byte (arbitrary offset)",
+            v_mac_has == (vin.gm < mac_total_(mlen, adlen)) && (!v_mac_has || v_mac_gbyte == mac_expected_(vin.gm, cbyte, mlen, ad, adlen)));
+    i = first_(V_OP_POLY_FINAL);
+    VASSERT("authenticator = Poly1305 final of that state, once", count_(V_OP_POLY_FINAL) == 1 && V_EV(i).op == V_OP_POLY_FINAL && V_EV(i).st == ps);
+    VASSERT("no other kind of primitive call", count_(V_OP_HCHACHA) == 0 && count_(V_OP_RANDOM) == 0 && count_(V_OP_POLY_ONESHOT) == 0 && count_(V_OP_POLY_VERIFY) == 0 && !v_log_overflow);
+    return V_EV(i).out;
+}
+static void rekey_event_(int rekeyed)
+{
+    unsigned i = first_xor_(0);
+    if (rekeyed)
+        VASSERT("rekey: (k || inonce) XOR ChaCha20-IETF keystream under the incremented nonce and the old key, 40 bytes in place, once",
+                count_xor_(0) == 1 && V_EV(i).op == V_OP_XOR && V_EV(i).cipher == V_C_CHACHA20_IETF && V_EV(i).len == 40 && V_EV(i).ic == 0 && V_EV(i).out == V_EV(i).in &&
+                (V_EV(i).flags & V_F_N_B) && (V_EV(i).flags & V_F_K_USER) && (V_EV(i).flags & V_F_BLKREF));
+    else
+        VASSERT("no rekeying unless the tag asks for it or the counter wraps", count_xor_(0) == 0);
 }
 
 void hf_pull(void)
@@ -134,6 +160,7 @@ void hf_pull(void)
     ss_state exp;
     if (vin.inlen >= 17) { in[0] = vin.in0; for (j = 0; j < 16; j++) in[1 + mlen + j] = vin.stored_mac[j]; }
     if (have_gk) m[vin.gk] = vin.mold;
+    unsigned char cbyte = (vin.inlen >= 17 && in_c_(mlen, vin.adlen)) ? in[1 + (vin.gm - off_blk_(vin.adlen) - 64)] : 0;      /* the ciphertext as given */
     prep_refs_(vin.in0, vin.in0);
     ss_next(&exp, &st0_, vin.mac, vin.xb[0], &rekeyed);     /* tag = first byte of the decrypted tag block */
     v_ref_nb = nonce_after_;
@@ -143,18 +170,19 @@ void hf_pull(void)
         VASSERT("chunk shorter than tag byte + authenticator is rejected without any primitive call", r == -1 && v_nlog == 0);
     } else {
         int ok = v_eq(vin.mac, vin.stored_mac, 16);
-        unsigned i = chunk_transcript_(ad, vin.adlen, in + 1, mlen); i++;
+        (void) chunk_transcript_(ad, vin.adlen, cbyte, mlen);
         VASSERT("accepted iff the recomputed authenticator equals the stored one in all 16 bytes", (r == 0) == ok);
         VASSERT("failure is -1", r == 0 || r == -1);
         if (ok) {
-            VASSERT("plaintext = ciphertext XOR keystream from block counter 2, only after the authenticator matched",
-                    V_EV(i).op == V_OP_XOR && V_EV(i).cipher == V_C_CHACHA20_IETF && V_EV(i).out == m && V_EV(i).in == in + 1 && V_EV(i).len == mlen && V_EV(i).ic == 2 && (V_EV(i).flags & V_F_N_A) && (V_EV(i).flags & V_F_K_USER)); i++;
-            if (rekeyed) i = rekey_event_(i);
-            VASSERT("no further primitive calls", v_nlog == i && !v_log_overflow);
+            unsigned i = first_xor_(2);
+            VASSERT("plaintext = ciphertext XOR keystream from block counter 2, one pass",
+                    count_xor_(2) == 1 && V_EV(i).op == V_OP_XOR && V_EV(i).cipher == V_C_CHACHA20_IETF && V_EV(i).out == m && V_EV(i).in == in + 1 && V_EV(i).len == mlen && V_EV(i).ic == 2 && (V_EV(i).flags & V_F_N_A) && (V_EV(i).flags & V_F_K_USER));
+            rekey_event_(rekeyed);
+            VASSERT("no further primitive calls", v_nlog == 5u + (rekeyed ? 1u : 0u));
             VASSERT("state advances by the documented transition (same function as push)", st_eq_(&st, &exp));
             VASSERT("message length and tag reported", (vin.lenp_null || mlen_out == mlen) && (vin.tagp_null || tag_out == vin.xb[0]));
         } else {
-            VASSERT("no keystream applied to the output", v_nlog == i && !v_log_overflow);
+            VASSERT("no keystream applied to the output, no rekeying, when the authenticator does not match", v_nlog == 4 && count_xor_(2) == 0 && count_xor_(0) == 0);
         }
     }
     if (r != 0) {
@@ -177,24 +205,14 @@ void hf_push(void)
     v_ref_nb = nonce_after_;
     VCALL(r = crypto_secretstream_xchacha20poly1305_push(&st, out, vin.lenp_null ? NULL : &outlen, m, vin.mlen, ad, vin.adlen, vin.tag));
     if (VMISUSED()) return;
-    /* push encrypts before authenticating: events 0..4, XOR(m), then the MAC over the ciphertext */
     {
-        unsigned i = 0; const void *ps;
-        VASSERT("Poly1305 key block", V_EV(0).op == V_OP_STREAM && V_EV(0).cipher == V_C_CHACHA20_IETF && V_EV(0).len == 64 && (V_EV(0).flags & V_F_N_A) && (V_EV(0).flags & V_F_K_USER));
-        VASSERT("one-time key", V_EV(1).op == V_OP_POLY_INIT && V_EV(1).kptr == V_EV(0).out && (V_EV(1).flags & V_F_K_KS0)); ps = V_EV(1).st;
-        VASSERT("MAC: ad", V_EV(2).op == V_OP_POLY_UPDATE && V_EV(2).st == ps && V_EV(2).in == ad && V_EV(2).len == vin.adlen);
-        VASSERT("MAC: pad(ad)", V_EV(3).op == V_OP_POLY_UPDATE && V_EV(3).len == ((16 - (vin.adlen & 15)) & 15) && (V_EV(3).flags & V_F_D_ZERO));
-        VASSERT("tag block = (tag || 0^63) XOR keystream block 1", V_EV(4).op == V_OP_XOR && V_EV(4).len == 64 && V_EV(4).ic == 1 && V_EV(4).out == V_EV(4).in && (V_EV(4).flags & V_F_N_A) && (V_EV(4).flags & V_F_K_USER) && (V_EV(4).flags & V_F_BLKREF));
-        VASSERT("MAC: encrypted tag block", V_EV(5).op == V_OP_POLY_UPDATE && V_EV(5).st == ps && V_EV(5).len == 64 && (V_EV(5).flags & V_F_D_REF64));
-        VASSERT("ciphertext = message XOR keystream from block counter 2", V_EV(6).op == V_OP_XOR && V_EV(6).cipher == V_C_CHACHA20_IETF && V_EV(6).out == out + 1 && V_EV(6).in == m && V_EV(6).len == vin.mlen && V_EV(6).ic == 2 && (V_EV(6).flags & V_F_N_A) && (V_EV(6).flags & V_F_K_USER));
-        VASSERT("MAC: ciphertext", V_EV(7).op == V_OP_POLY_UPDATE && V_EV(7).st == ps && V_EV(7).in == out + 1 && V_EV(7).len == vin.mlen);
-        VASSERT("MAC: pad quirk", V_EV(8).op == V_OP_POLY_UPDATE && V_EV(8).len == ((0x10 - 64 + vin.mlen) & 0xf) && (V_EV(8).flags & V_F_D_ZERO));
-        VASSERT("MAC: le64(adlen)", V_EV(9).op == V_OP_POLY_UPDATE && V_EV(9).len == 8 && V_EV(9).d64 == vin.adlen);
-        VASSERT("MAC: le64(64+mlen)", V_EV(10).op == V_OP_POLY_UPDATE && V_EV(10).len == 8 && V_EV(10).d64 == 64 + vin.mlen);
-        VASSERT("authenticator written after the ciphertext", V_EV(11).op == V_OP_POLY_FINAL && V_EV(11).st == ps && V_EV(11).out == out + 1 + vin.mlen);
-        i = 12;
-        if (rekeyed) i = rekey_event_(i);
-        VASSERT("no further primitive calls", v_nlog == i && !v_log_overflow);
+        unsigned char cbyte = in_c_(vin.mlen, vin.adlen) ? out[1 + (vin.gm - off_blk_(vin.adlen) - 64)] : 0;        /* the ciphertext as finally written */
+        const void *fo = chunk_transcript_(ad, vin.adlen, cbyte, vin.mlen);
+        unsigned i = first_xor_(2);
+        VASSERT("ciphertext = message XOR keystream from block counter 2, one pass", count_xor_(2) == 1 && V_EV(i).op == V_OP_XOR && V_EV(i).cipher == V_C_CHACHA20_IETF && V_EV(i).out == out + 1 && V_EV(i).in == m && V_EV(i).len == vin.mlen && V_EV(i).ic == 2 && (V_EV(i).flags & V_F_N_A) && (V_EV(i).flags & V_F_K_USER));
+        VASSERT("authenticator written after the ciphertext", fo == out + 1 + vin.mlen);
+        rekey_event_(rekeyed);
+        VASSERT("no further primitive calls", v_nlog == 5u + (rekeyed ? 1u : 0u));
     }
     VASSERT("returns 0, chunk = encrypted tag byte || ciphertext || authenticator, length mlen + 17", r == 0 && out[0] == vin.xb[0] && v_eq(out + 1 + vin.mlen, vin.mac, 16) && (vin.lenp_null || outlen == vin.mlen + 17));
     VASSERT("state advances by the documented transition (same function as pull)", st_eq_(&st, &exp));
